@@ -45,13 +45,17 @@ BOTH = ['Copy', 'Clone', 'Debug', 'Default'] + CMP
 STRUCT_ONLY = ['Add', 'SubAssign', 'Neg', 'BitXor', 'ShlAssign', 'Not']
 
 
-WR = '#[derive(Debug, PartialEq, Eq, PartialOrd, Ord, Hash)]\npub struct Wr<T: ?Sized>(pub T);\n'
+WR = '#[derive(Debug, PartialEq, Eq, PartialOrd, Ord, Hash)]\npub struct Wr<T: ?Sized>(pub T);\npub type Sl = [u8];\n'
 UNSIZED_WRAPPERS = [
     ('Debug, PartialEq, Eq, PartialOrd, Ord, Hash', 'pub struct X<U: ?Sized> { pub a: u8, pub b: Wr<U> }'),
     ('Debug, PartialEq', 'pub struct X<T, U>(pub T, pub ::core::mem::ManuallyDrop<U>) where U: ?Sized;'),
     ('Debug', 'pub struct X<U: ?Sized>(pub ::std::cell::RefCell<U>);'),
     ('Debug, Hash', 'pub struct X<U: ?Sized> { pub a: u8, #[debug(ignore)] pub m: u8, pub b: Wr<Wr<U>> }'),
     ('Debug, PartialOrd, PartialEq', "pub struct X<'a, U: ?Sized + 'a> { pub r: &'a u8, pub b: ::std::boxed::Box<U>, pub c: Wr<U> }"),
+    # an unsized last field that its tokens do not give away: a type alias, parentheses, a wrapper of an alias
+    ('Debug, PartialEq, Hash', 'pub struct X(pub u8, pub Sl);'),
+    ('Debug, PartialEq, Eq, PartialOrd, Ord', '#[allow(unused_parens)] pub struct X { pub a: u8, pub b: (str) }'),
+    ('Debug, Hash', 'pub struct X { pub a: u8, pub b: Wr<Sl> }'),
 ]
 
 
